@@ -172,6 +172,25 @@ func GenOpenCase(seed uint64, idx int) OpenCase {
 		}
 		c.B = Opening{Salt: salt, VD: []VD{{Topic: 1, Entries: e2}}}
 	}
+	if r.Chance(4) {
+		// long openings: a salt of 4 KiB .. 19 KB (the salt is an unconstrained string) or hundreds of entries, the two
+		// openings differing only far behind the start - every committed byte must be bound, however long the reveal
+		if r.Chance(50) {
+			n := []int{4096, 16383, 16384, 16390, 19000}[r.Intn(5)] // coqc parses list literals of up to ~20000 elements on its default stack
+			long := strings.Repeat("5A", n/2+4)
+			c.A = Opening{Salt: long + "0", VD: []VD{{Topic: 1, Entries: entries}}}
+			c.B = Opening{Salt: long + "1", VD: []VD{{Topic: 1, Entries: entries}}}
+		} else {
+			var many []string
+			for i := 0; i < 150+r.Intn(200); i++ {
+				many = append(many, genEntry(r, chains))
+			}
+			m2 := append([]string{}, many...)
+			m2[len(m2)-1] = m2[len(m2)-1] + "f"
+			c.A = Opening{Salt: salt, VD: []VD{{Topic: 1, Entries: many}}}
+			c.B = Opening{Salt: salt, VD: []VD{{Topic: 1, Entries: m2}}}
+		}
+	}
 	c.ABCI = r.Chance(12)
 	return c
 }
